@@ -71,7 +71,7 @@ var rsaLabel = map[string]x509.SignatureAlgorithm{"sha1": x509.SHA1WithRSA, "sha
 
 var mutations = []string{"none", "none", "none", "pad_byte", "pad_byte", "block_type", "leading", "separator", "trailing_garbage", "shift_left", "short_pad_zero_tail",
 	"digestinfo_byte", "digestinfo_byte", "digest_byte", "other_hash_info", "wrong_digest", "sig_bit", "tbs_bit", "no_padding", "all_zero_pad",
-	"sig_extra_tail", "sig_truncated", "sig_leading_zero", "digestinfo_trailing_in_seq", "algid_trailing", "only_digestinfo", "genuine_pss"}
+	"sig_extra_tail", "sig_truncated", "sig_leading_zero", "digestinfo_trailing_in_seq", "algid_trailing", "only_digestinfo", "genuine_pss", "short_em", "short_em"}
 
 func pick[T any](r *sim.Rng, xs []T) T { return xs[r.Intn(len(xs))] }
 
@@ -252,6 +252,24 @@ func buildEM(p *APlan, k int, tbs []byte) (em []byte, wellFormed bool, ok bool) 
 		copy(em[padEnd:], t)
 		em[padEnd-1] = 0
 		em[k-1] = 0
+		wellFormed = false
+	case "short_em":
+		// a well-formed looking message that is shorter than the modulus: leading zero octets, then 01 FF{j} 00 T with
+		// 8 <= j < the full padding length (as an integer this is a small value: the structure starts late)
+		if npad < 10 {
+			return nil, false, false
+		}
+		j := 8 + p.Pos%(npad-8)
+		if j >= npad {
+			j = npad - 1
+		}
+		copy(em, make([]byte, k))
+		start := k - len(t) - 1 - j - 1 // index of the 01 octet
+		em[start] = 1
+		for i := start + 1; i <= start+j; i++ {
+			em[i] = 0xff
+		}
+		copy(em[start+j+2:], t)
 		wellFormed = false
 	case "short_pad_zero_tail":
 		// only 8 bytes of padding, the rest of the message zero-filled before T
